@@ -26,7 +26,7 @@ def run(ctx):
         "evaluations": st["cases"], "distinct_nontrivial": st["nontrivial"],
         "rule": "a case is one scratch module (good1 with goose / !goose tagged files, and randomly sub/good2, my-pkg, bad = one untranslatable function among "
                 "translatable ones, broken = does not type-check) x a pattern set (./..., one package, a list, ./sub/... + one, a pattern matching nothing) x "
-                "-ignore-errors x -typecheck x -source-comments x a prior state of the output directory (absent, result of an identical run, stale contents at "
+                "the loader directory (module root, or the sub-directory sub/ of the module; given by -dir from the root or from outside the module, or as the working directory with no -dir) x -ignore-errors x -typecheck x -source-comments x a prior state of the output directory (absent, result of an identical run, stale contents at "
                 "the target paths, an unrelated file); the per-package results fed to the model come from translating each matched package alone; "
                 "non-trivial = at least two packages matched",
         "samples": [vlib.history_lines("%s -seed %d -n 1 -goose %s -repo %s" % (bins["clidrv"], ctx.seed + 3, goose, vlib.REPO), 0, "K", "E")[:12]],
